@@ -18,7 +18,7 @@ META = dict(
           'non-whole-byte little-endian variants (U9LE..U63LE etc., outside the statement), invalid text encodings, 80-bit encodings the '
           'format itself declares invalid (only required not to crash), Raw/BitBuf readers (C01/C05). 80-bit floats: either float64 '
           'neighbour of the exact value is accepted. Known defects are recognised by signature: D9 ULEB128.ge_2p63.err_instead_of_value, '
-          'D24 F.80.exp_{above,below}_f64.wrong_value and F.80.nan.wrong_value, D28 form:TryField.crash.when_read_fails.'),
+          'D24 F.80.exp_{above,below}_f64.wrong_value and F.80.nan.wrong_value, C02-N1 form:TryField.crash.when_read_fails.'),
     technique=('TLA+ spec (Bits.tla, Scalar.tla) + TLC exhaustive MC of as-built transcriptions + TLC-emitted boundary cases replayed on the '
                'real readers via reflection + TLC trace validation of seeded random real reads'),
 )
@@ -70,7 +70,7 @@ MIN_CASES = dict(int=40000, big=10000, float=15000, fp=1500, leb=6000, bits=200,
 
 
 def crash_sig(form, case):
-    return 'form:%s.crash.%s' % (form, 'when_read_fails' if case['err'] else '%s.%s' % (case['k'], case['tag']))
+    return 'form:%s.crash.%s' % (form, 'when_read_fails' if (case['err'] or case['lax']) else '%s.%s' % (case['k'], case['tag']))
 
 
 def fail_sig(case, f):
